@@ -21,7 +21,7 @@ pub struct Case {
 
 const N_SERVICES: u8 = 30;
 
-fn case() -> impl Strategy<Value = Case> {
+pub fn case() -> impl Strategy<Value = Case> {
     (prop::collection::vec((0u8..N_SERVICES, any::<u8>()), 1..9), prop::collection::vec(any::<u8>(), 0..600), 0u8..4, any::<bool>()).prop_map(|(requests, data, ticks, raise_event)| Case { requests, data, ticks, raise_event })
 }
 
@@ -448,7 +448,7 @@ fn build(kind: u8, steer: u8, f: &mut Filler, w: &mut World, h: RequestHeader) -
     }
 }
 
-fn run_with(ctx: &Ctx, c: &Case, modify: bool) -> PResult {
+pub fn run_with(ctx: &Ctx, c: &Case, modify: bool) -> PResult {
     let server = srv::worker_server(modify);
     let mut conn = Conn::open(server.clone());
     let token = conn.session();
